@@ -130,7 +130,7 @@ def gen(tier, rng):
             yield f"c16.nz.from_le_bytes {n} {xb(b)}"
             if n in ARR:
                 yield f"c16.nz.from_be_byte_array {n} {xb(b)}"
-                yield f"c16.nz.from_le_byte_array {n} {xb(b)}"        # known finding C16-nz-le-array unless palindromic
+                yield f"c16.nz.from_le_byte_array {n} {xb(b)}"        # repaired by fix ad61352 (was C16-nz-from-le-byte-array-reads-be); palindromic bytes: both readings agree
                 pal = b[:nb // 2] + b[:nb // 2][::-1]
                 yield f"c16.nz.from_le_byte_array {n} {xb(pal)}"
             yield f"c16.u.words {n} {hx(v)}"
@@ -156,7 +156,7 @@ def gen(tier, rng):
                 yield f"c16.u.from_le_hex {n} {xt(t)}"
                 yield f"c16.i.from_be_hex {n} {xt(t)}"
                 yield f"c16.odd.from_be_hex {n} {xt(t)}"
-                yield f"c16.odd.from_le_hex {n} {xt(t)}"           # known finding C16-odd-le-hex unless both readings agree
+                yield f"c16.odd.from_le_hex {n} {xt(t)}"           # repaired by fix dd30bc0 (was C16-odd-from-le-hex-reads-be)
                 # byte-palindromic text: both readings agree
                 half = t[:nd // 2]
                 pal = half + ''.join(half[i:i + 2] for i in range(len(half) - 2, -2, -2))
